@@ -1442,11 +1442,11 @@ def struct_dispatch_rule(syn, prop, rule="C01.R6"):
     ok = False
     for e in (templates(tf) if tf else []):
         fc = S.format_calls(e["tokens"])
-        if fc and S.unquote(fc[0][0]) == "[{}]" and 'join(", ")' in "".join(S.flat(fc[0][1][0])).replace(" ", "").replace('","', '", "'):
-            ok = True
-        elif fc and S.unquote(fc[0][0]) == "[{}]" and ".join(" in "".join(S.flat(fc[0][1][0])):
-            sep = re.search(r'\.join\((".*?")\)', "".join(S.flat(fc[0][1][0])))
-            ok = bool(sep) and S.unquote(sep.group(1)) == ", "
+        if fc and S.unquote(fc[0][0]) == "[{}]":
+            # the single argument joins the element texts with ", " (method form or `<[String]>::join(&[..], ", ")`)
+            toks = [t for a in fc[0][1] for t in S.flat(a) if isinstance(t, str)]
+            lits = [S.unquote(t) for t in toks if t.startswith('"')]
+            ok = "join" in toks and bool(lits) and lits[-1] == ", " and "formatted_fields" in toks
     r.inst(shape="tuple struct", template='"[{}]" over elements joined by ", "', ok=ok)
     if not ok:
         r.fail(prop, "tuple-shape", "tuple structs are not declared as `[a, b, ..]`", tf["file"] if tf else None, tf["line"] if tf else None)
@@ -1921,5 +1921,48 @@ def intersection_operand_rule(syn, prop, rule):
         r.fail(prop, "intersection-operand-unparenthesised %s %s x%d" % (q, arg.replace(" ", ""), len(lst)),
                "`%s` interpolates %s after ` & ` without parentheses: when it is a union (an inlined enum payload, `Option<T>` by name, a `type = \"A | B\"` override) the result reads `{ tag } & A | B`, whose second arm has lost the tag" % (lst[0][2], arg),
                lst[0][0], lst[0][1])
+    r.floor = 3
+    return r
+
+
+def empty_repetition_rule(syn, prop, rule="C16.R9"):
+    """`[#(#xs),*].join(..)` expands to `[].join(..)` when xs is empty: rustc cannot infer the element type (E0282) and the
+    derive's output does not compile.  Either the element type is spelled (`<[String]>::join(&[..], ..)`) or the
+    repetition is only reached when xs is known to be non-empty."""
+    r = Result(rule, "an array or vec literal built from a `#(#xs),*` repetition whose element type is left to inference is only emitted where xs is known to be non-empty (a dominating peek()/is_empty() test); otherwise `#[ts(skip)]` on every field or variant produces `[].join(..)`, which does not compile")
+    n = 0
+    for fn in syn.fns_in("macros/src/"):
+        ifs = [e for e in S.events(fn, "if")]
+        rets = [e for e in S.events(fn, "return")]
+        for e in templates(fn):
+            fl = [t for t in S.flat(e["tokens"]) if isinstance(t, str)]
+            for i in range(len(fl) - 9):
+                # [ # ( # X ) , * ] . method      (optionally preceded by `vec !`)
+                if fl[i:i + 4] == ["[", "#", "(", "#"] and fl[i + 5:i + 10] == [")", ",", "*", "]", "."]:
+                    x = fl[i + 4]
+                    typed = i >= 1 and fl[i - 1] == "&"
+                    if typed:
+                        continue
+                    n += 1
+                    guard = None
+                    for c in e["ctx"]:
+                        if c["k"] == "if":
+                            cond = S.squash(c["cond"])
+                            if x in cond and c.get("branch") == "then" and ("peek().is_some()" in cond or ("!" in cond and "is_empty()" in cond)):
+                                guard = "enclosing `if %s`" % c["cond"]
+                            if x in cond and c.get("branch") == "else" and ("peek().is_none()" in cond or (cond.endswith("is_empty()") and "!" not in cond)):
+                                guard = "else of `if %s`" % c["cond"]
+                    if guard is None:
+                        for ie in ifs:
+                            cond = S.squash(ie["cond"])
+                            if int(ie["line"]) < int(e["line"]) and x in cond and ("peek().is_none()" in cond or (cond.endswith("is_empty()") and "!" not in cond)):
+                                if any(any(c.get("id") == ie["id"] and c.get("branch", "then") == "then" for c in rt["ctx"]) for rt in rets):
+                                    guard = "early return under `if %s`" % ie["cond"]
+                    r.inst(fn=fn["qual"], repetition="#" + x, where="%s:%s" % (fn["file"], e["line"]), guard=guard)
+                    if guard is None:
+                        r.fail(prop, "untyped-empty-repetition %s #%s" % (fn["qual"], x),
+                               "`[#(#%s),*].%s(..)` is emitted although %s may be empty (every field or variant skipped): the expansion contains `[].%s(..)` and fails with E0282 `type annotations needed`" % (x, fl[i + 10] if i + 10 < len(fl) else "?", x, fl[i + 10] if i + 10 < len(fl) else "?"),
+                               fn["file"], e["line"])
+    r.stats["untyped_repetitions"] = n
     r.floor = 3
     return r
